@@ -28,6 +28,8 @@ claimed = {
              ref="6/C11", note=NOTE),
  "C12": dict(text="Real execute.Plans (New/Start/validateStartState/runPlan/Wait) and real coercion.Workstream with the real engine behind them: two Start(id) calls race (switch points at the vault Read and at lock operations, delay-bounded) and follow each other back to back; SubmitTime, maxSubmit and the clock are solver variables for the staleness clause (boundary included); every API history of bounded length over known and unknown ids is run. Asserted: at most one execution per plan, rejected Starts are errors without side effects, any panic, log.Fatalf or deadlock is a violation.",
              ref="6/C12", note=NOTE),
+ "C16": dict(text="The real Workstream.Submit (populateRegistry, requestDefaults, workflow.Validate with every validate method and addOrErrKey, Defaults, Create) and Start/validateStartState run on a valid plan of every shape within the bound with one mutation (two in thorough) from 17 classes placed at every applicable object; Timeout/Retries/Concurrency are solver variables. Asserted: Submit returns nil iff the independent well-formedness predicate holds; a rejection leaves nothing in storage and never panics; an accepted plan has pairwise distinct v7 ids, pristine NotStarted states, a submit time, Concurrency >= 1, timeout >= 5s, Retries >= 0; Start refuses exactly the plans whose check action names a non-check plugin.",
+             ref="6/C16", note=NOTE),
 }
 NA = {
  "C17": "quantifies over Go type shapes and the code is reflection from top to bottom (reflect, html/template, deep.MustCopy); go/ssa gives no semantics for reflect and types are not SMT values, so a solver would decide nothing (DESIGN.md section 7)",
